@@ -21,6 +21,7 @@ Theorem C04_line_transport : forall (S comp : Type) stp skp clear_skip (eval : c
   (forall s, R s (clear_skip s)) -> (forall s, R s (clear_errors s)) ->
   forall q AND cs s f, R s (fst (fst (adj S comp stp skp clear_skip eval clear_errors q AND cs s f))).
 Proof. exact adj_rel. Qed.
+Print Assumptions C04_line_transport.
 
 (** the verdict of the fragment never returns to True, line after line and component after component *)
 Theorem C04_monotone : forall c q cs s l, valid (x mx s) = false -> valid (x mx (fst (ctl_m c q cs s l))) = false.
@@ -38,6 +39,7 @@ Print Assumptions C04_exact.
 (** a fail() that is not executed does not fail: right of '->' whose left is false ... *)
 Theorem C04_not_executed_when : forall c cd nc a s, eval_cond c cd s = false -> eval c (CWhen cd nc a) s = (s, nc).
 Proof. exact when_false_no_effect. Qed.
+Print Assumptions C04_not_executed_when.
 (** ... and components after a fired stop()/skip() are not evaluated at all: C13_stop_line, C13_skip_line. *)
 
 (** failed()/valid() report the verdict as of their position in the line *)
@@ -45,6 +47,7 @@ Theorem C04_per_line : forall c s, frozen mx s = false ->
   eval c (CCond IsValid) s = (s, valid (x mx s)) /\ eval c (CCond IsFailed) s = (s, negb (valid (x mx s))) /\
   eval c (CCond IsValid) (fst (eval c (CAct AFail) s)) = (fst (eval c (CAct AFail) s), false).
 Proof. intros c s H. cbn. rewrite H. auto. Qed.
+Print Assumptions C04_per_line.
 
 (** an error handled under a policy (or validation-mode) with 'fail' turns the verdict False, and only then *)
 Theorem C04_error_fail : forall p v s line s',
@@ -54,6 +57,7 @@ Proof.
   intros p v s line s' H. rewrite handle_outcome in H.
   destruct (flag (v_raise v) (p_raise p)); destruct H as [H|H]; inversion H; reflexivity.
 Qed.
+Print Assumptions C04_error_fail.
 
 (** aggregation: for members that read at least one record, ResultsManager.is_valid and the run
     manifest's all_valid are both the conjunction of the members' verdicts (partial: see D12) *)
@@ -66,6 +70,7 @@ Print Assumptions C04_aggregate_partial.
 Theorem C04_aggregate_unstarted_refuted :
   results_manager_is_valid [mkMember false true] = false /\ manifest_all_valid [mkMember false true] = true.
 Proof. exact aggregate_unstarted_refuted. Qed.
+Print Assumptions C04_aggregate_unstarted_refuted.
 
 Example C04_nonvacuous :
   let prog := [CAct (APush 1); CWhen (EqLine 2) false AFail; CWhen IsFailed true (APush 2)] in
